@@ -3,6 +3,8 @@ Driver for C19.  Strings travel as code points joined by `.` (`_` = empty string
 
   PARSE c=<str|NONE>
       -> lc=<N:str|P:str|-> fb=<0|1>            |  ERR:XPTY0004
+  DEFCOLL lc=<str>
+      -> dc=<str>   |  ERR:OTHER:ValueError        (XPath2Parser's default collation for that LC_COLLATE)
   HIST init=<str> avail=<str;str;..> norm=<req>str;..> env=<str> dec=<str> evs=<tok/tok/..>
       req = N:<str> | P:<str>;  evaluation tokens (prefix form):  E/<coll str|NONE>/<raises: -|n>/<k>  followed by
       k inner evaluations
@@ -49,6 +51,7 @@ def showErr : Err → String
   | .XPTY0004 => "ERR:XPTY0004"
   | .FOCH0002 => "ERR:FOCH0002"
   | .localeError => "ERR:OTHER:Error"
+  | .valueError => "ERR:OTHER:ValueError"
   | .body _ => "ERR:BODY"
 
 def showOut : Out → String
@@ -244,6 +247,12 @@ def answer (line : String) : String :=
       match parseColl c with
       | .error e => showErr e
       | .ok m => s!"lc={match m.lc with | some r => encReq r | none => "-"} fb={b01 m.fallback}"
+  | "DEFCOLL" =>
+    match decStr (field fs "lc") with
+    | none => "bad-lc"
+    | some lc => match defaultCollation lc with
+      | some c => "dc=" ++ encStr c
+      | none => "ERR:OTHER:ValueError"
   | "HIST" => answerHist fs
   | "THR" => answerThr fs
   | "ENV" => answerEnv fs
